@@ -392,7 +392,7 @@ fn cmd_check_inner(m: &HashMap<String, String>) -> i32 {
         ("runs_with_nodrop_element", J::i(st.runs_plain as i64)),
         ("runs_with_zero_sized_element", J::i(st.runs_zst as i64)),
         ("runs_with_uniform_payload_values", J::i(st.runs_uniform as i64)),
-        ("element_shapes", J::s("vector runs draw the element shape per run: Tok (8 bytes, align 4, drop glue) 9/16; Wide16 (16 bytes, align 16, checked padding byte in front of the payload, drop glue) 4/16; PlainNoDrop (no drop glue, so mem::needs_drop::<T>() is false: order, length, aliasing and read-after-yield are checked, drop accounting is unobservable) 2/16; ZstDrop (zero-sized with drop glue: counting oracle created - destroyed - forgotten == owned, len/size_hint, yields) 1/16. Matrix runs: Tok 10/16, Wide16 3/16, PlainNoDrop 2/16 (rows and columns are VecN<leaf>), ZstDrop 1/16 (matrix part only, counting oracle).")),
+        ("element_shapes", J::s("vector runs draw the element shape per run: Tok (8 bytes, align 4, drop glue) 9/16; Wide256 (256 bytes, align 16, checked padding byte in front of the payload and sentinel byte at the end, drop glue) 4/16; PlainNoDrop (no drop glue, so mem::needs_drop::<T>() is false: order, length, aliasing and read-after-yield are checked, drop accounting is unobservable) 2/16; ZstDrop (zero-sized with drop glue: counting oracle created - destroyed - forgotten == owned, len/size_hint, yields) 1/16. Matrix runs: Tok 10/16, Wide256 3/16, PlainNoDrop 2/16 (rows and columns are VecN<leaf>), ZstDrop 1/16 (matrix part only, counting oracle).")),
         ("simulated_steps_executed", J::i(st.ops_exec as i64)),
         ("simulated_steps_skipped_precondition", J::i(st.ops_skipped as i64)),
         ("simulated_time_note", J::s("vek has no clock; simulated time is the number of simulator steps (operations executed)")),
@@ -423,16 +423,16 @@ fn cmd_check_inner(m: &HashMap<String, String>) -> i32 {
             "components",
             J::obj(vec![
                 ("real", J::Arr(vec![
-                    J::s("vek (path dependency on /repo, rebuilt from the working tree): all 13 vector types incl. their 13 IntoIter types (Iterator, DoubleEndedIterator, ExactSizeIterator, Debug, Hash, PartialEq, Drop, and whatever of Clone/PartialOrd/AsRef/AsMut/Borrow/Deref/Default they implement), From<[T;N]>, From<tuple>, new, into_array, into_tuple, FromIterator, from_slice, Default, Clone, Debug/Display/Hash/PartialEq, map/map2/zip, as_slice/as_mut_slice/AsRef/AsMut/Borrow/BorrowMut/Deref/DerefMut/&V and &mut V iteration"),
-                    J::s("vek row_major/column_major Mat2/3/4: new, {from,into}_{row,col}_array(s), as_(mut_){row,col}_slice and _ptr, Index/IndexMut, transposed/transpose, From<other layout>, map_rows/map_cols/map, Clone, Debug/Display/Hash/PartialEq, public rows/cols"),
+                    J::s("vek (path dependency on /repo, rebuilt from the working tree): all 13 vector types incl. their 13 IntoIter types (Iterator, DoubleEndedIterator, ExactSizeIterator, Debug, Hash, PartialEq, Drop, and whatever of Clone/PartialOrd/AsRef/AsMut/Borrow/Deref/Default they implement), From<[T;N]>, From<tuple>, new, into_array, into_tuple, FromIterator, from_slice, Default, Clone (clone and clone_from), Debug/Display/Hash/PartialEq, map/map2/map3/zip/reduce, the kind and size conversions between the vector types that have no bound on T (From<other kind>, truncating From<larger>, From<(smaller, scalar)>, Vec4 <-> Quaternion), swizzles (yx, zyx, zyxw, xy, xyz, rgb), with_x..w, shuffled_argb/bgra/bgr, Vec4::interleave_*/shuffle_lo_hi_0101/shuffle_hi_lo_2323, as_slice/as_mut_slice/AsRef/AsMut/Borrow/BorrowMut/Deref/DerefMut/&V and &mut V iteration"),
+                    J::s("vek row_major/column_major Mat2/3/4: new, {from,into}_{row,col}_array(s), as_(mut_){row,col}_slice and _ptr, Index/IndexMut, transposed/transpose, From<other layout>, Mat3::from(Mat4) / Mat2::from(Mat4) / Mat2::from(Mat3), map_rows/map_cols/map, Clone (clone and clone_from), Debug/Display/Hash/PartialEq, public rows/cols"),
                     J::s("std: the provided Iterator/DoubleEndedIterator adaptors driven over the real iterator (find, position, try_fold, step_by, zip, peekable, collect, ...), unwinding (real panics, catch_unwind), mem::swap / mem::forget"),
                 ])),
                 ("stub", J::Arr(vec![
-                    J::s("element types Tok / Wide16 / PlainNoDrop (ledger-reporting Drop/Debug/Display/PartialEq/Hash/Default/Clone/Ord) and ZstDrop (counting)"),
+                    J::s("element types Tok / Wide256 / PlainNoDrop (ledger-reporting Drop/Debug/Display/PartialEq/Hash/Default/Clone/Ord) and ZstDrop (counting)"),
                     J::s("caller (operation order, what it does with yielded elements, every closure handed to an adaptor or to map*, loop bodies)"),
                     J::s("formatter sink (can fail at its k-th write)"),
-                    J::s("from_iter source iterator (EOF, surplus, panic, lying size_hint)"),
-                    J::s("Hasher (FNV-1a)"),
+                    J::s("from_iter source iterator (EOF, surplus, not fused, lying size_hint; panics in next(), in size_hint() and in its own destructor)"),
+                    J::s("Hasher (FNV-1a; can unwind at its k-th write)"),
                 ])),
             ]),
         ),
